@@ -208,6 +208,20 @@ def gen_cases(ctx):
             else:
                 t["packages"]["example.com/x/q"]["interfaces"]["I"]["configs"][1] = c
             cases.append({"i": len(cases), "tree": t})
+    # explicit empty strings for every string-valued mapped key, at every level
+    strkeys = [k for k in MAPPED if V2_TYPES.get(k) == "str"]
+    for lvl in ("top", "pkg", "iface", "configs"):
+        c = {k: "" for k in strkeys}
+        t = {"dir": "inherited-dir", "mockname": "Inherited{{.InterfaceName}}", "packages": {"example.com/x/q": {"config": {"outpkg": "inheritedpkg"}, "interfaces": {"I": {"config": {}, "configs": [{}, {}]}}}}}
+        if lvl == "top":
+            t.update(c)
+        elif lvl == "pkg":
+            t["packages"]["example.com/x/q"]["config"] = c
+        elif lvl == "iface":
+            t["packages"]["example.com/x/q"]["interfaces"]["I"]["config"] = c
+        else:
+            t["packages"]["example.com/x/q"]["interfaces"]["I"]["configs"][1] = c
+        cases.append({"i": len(cases), "tree": t})
     n = 60 if ctx.tier == "quick" else 2500
     for _ in range(n):
         cases.append({"i": len(cases), "tree": Gen(ctx.rng).tree() if True else None})
@@ -308,13 +322,18 @@ def compare_level(where, v2c, v3c, errs, allow_template=True):
     plain, td, tol = expected_level(v2c if isinstance(v2c, dict) else {})
     v3c = v3c if isinstance(v3c, dict) else {}
     for k, v in plain.items():
+        if v == "":
+            # an explicit empty string is a setting (it resets what the level would otherwise inherit): it must arrive as one
+            if k not in v3c or v3c[k] != "":
+                errs.append("%s: v2 sets the v3 key %r to the empty string, v3 file has %s" % (where, k, repr(v3c[k]) if k in v3c else "no such key"))
+            continue
         if is_empty(v) and is_empty(v3c.get(k)):
             continue
         if v3c.get(k) != v:
             errs.append("%s: v2 value for v3 key %r is %r, v3 file has %r" % (where, k, v, v3c.get(k)))
     a_td = v3c.get("template-data") or {}
     for k, v in td.items():
-        if not isinstance(a_td, dict) or a_td.get(k) != v:
+        if not isinstance(a_td, dict) or a_td.get(k) != v or k not in a_td:
             errs.append("%s: template-data.%s should be %r, v3 file has %r" % (where, k, v, a_td.get(k) if isinstance(a_td, dict) else a_td))
     for k, v in v3c.items():
         if k in ("packages", "interfaces", "configs"):
